@@ -229,3 +229,17 @@ Example C03_default_mode_example :
   (length (mout (fst ex_fast)), length (mout (fst ex_ref)), length (obs (mout (fst ex_ref)))) = (11, 19, 7)%nat.
 Proof. destruct ex_bulk_obs as (A & B & C & D & _). exact (conj A (conj B (conj C D))). Qed.
 Print Assumptions C03_default_mode_example.
+
+(* fuel discharged for the REFERENCE driver (TokIR/Termination.v, see Props/C04.v): with fuel from the explicit bound
+   on the total input length the log of drive_flat is [regular] - no SPanic 98 / 97 - for every chunking, sink script
+   and injected text.  (The [regular] hypotheses above are about the default-mode run over the chunked queue, and
+   [all_done] also excludes the genuine panic values 96 / 99 / 1: those are not fuel questions.) *)
+From HV Require Inst.InstTermination.
+Theorem C03_reference_driver_is_regular_with_enough_fuel :
+  forall simd ent c1 sk fuel inj chunks s0 last,
+  (InstTermination.html_fuel (length (concat chunks) + length chunks * (50 * length inj)) <= fuel)%nat ->
+  (4 <= fuel)%nat ->
+  regular (snd (drive_flat html_flavour true html_table simd ent c1 sk fuel inj chunks
+                           (mkmach (init_cfg s0 last false) [] [] 0%N) [])).
+Proof. exact InstTermination.html_drive_terminates. Qed.
+Print Assumptions C03_reference_driver_is_regular_with_enough_fuel.
